@@ -47,7 +47,7 @@ ASSUMPTIONS = [
 REQUIRED = ["tree_resamplings", "branches_checked", "sample_points_checked", "zero_length_branches",
             "two_node_branches_longer_than_spacing", "exact_multiple_spacings", "root_one_child",
             "non_soma_roots", "instance_reused", "branch_isometric_checked", "integer_coordinate_branches",
-            "branch_linear_checked", "branch_smoother_checked", "tree_smoother_checked",
+            "branch_linear_checked", "branch_smoother_checked", "tree_smoother_checked", "assembler_identity_checked",
             "tap_assembler", "tap_resample"]
 FLOOR = {"quick": 850, "thorough": 17000}
 SHARDS = {"quick": 8, "thorough": 16}
@@ -267,6 +267,44 @@ def exec_tree(ctx, case):
         check_resampled_tree(ctx, case, out, out3, spacing, "resampling of a resampled tree")
 
 
+def exec_assembler(ctx, case):
+    """BranchTreeAssembler on an untouched branch tree gives back the same attributed tree (up to
+    numbering): every node once, same parent relation, same types and radii."""
+    from swcgeom.core import BranchTree
+    from swcgeom.transforms.branch_tree import BranchTreeAssembler
+
+    spec = G.spec_from_recipe(case["tree"])
+    n = len(spec["pid"])
+    keys = [(float(spec["x"][i]), float(spec["y"][i]), float(spec["z"][i]), float(spec["r"][i]))
+            for i in range(n)]
+    if len(set(keys)) != n or n < 2:
+        ctx.skip("nodes not distinct by (position, radius)")
+        return
+    tree = G.build(spec, with_tag=False)
+    fp = contracts.fingerprint(tree)
+    out = BranchTreeAssembler()(BranchTree.from_tree(tree))
+    ctx.count("assembler_identity_checked")
+    wf = topo.well_formed(out.id(), out.pid())
+    if wf:
+        return ctx.violation("malformed-result", f"BranchTreeAssembler: {wf}", case)
+    Xo = _xyzr(out)
+    ko = [tuple(float(v) for v in Xo[i]) for i in range(len(Xo))]
+    if sorted(ko) != sorted(keys):
+        return ctx.violation("assembler-nodes", f"BranchTreeAssembler returned {len(ko)} nodes for "
+                                                f"{n}; {len(set(keys) - set(ko))} missing, "
+                                                f"{len(set(ko) - set(keys))} unexpected", case)
+    rel_in = {keys[i]: (keys[p] if p >= 0 else None) for i, p in enumerate(spec["pid"])}
+    rel_out = {ko[i]: (ko[p] if p >= 0 else None) for i, p in enumerate(out.pid())}
+    if rel_in != rel_out:
+        return ctx.violation("assembler-edges", "BranchTreeAssembler changed the parent relation",
+                             case)
+    typ_in = {keys[i]: int(spec["type"][i]) for i in range(n)}
+    if any(typ_in[ko[i]] != int(out.type()[i]) for i in range(n)):
+        return ctx.violation("assembler-types", "BranchTreeAssembler changed node types", case)
+    if contracts.fingerprint(tree) != fp:
+        return ctx.violation("input-mutated", "assembling modified the source tree", case)
+
+
 def exec_branch(ctx, case):
     from swcgeom.core import Branch
     from swcgeom.transforms import BranchConvSmoother, BranchLinearResampler
@@ -412,7 +450,8 @@ def execute(ctx, case):
     try:
         with warnings.catch_warnings():
             warnings.simplefilter("ignore")
-            {"tree": exec_tree, "branch": exec_branch, "smooth": exec_smooth_tree}[case["kind"]](
+            {"tree": exec_tree, "branch": exec_branch, "smooth": exec_smooth_tree,
+             "assembler": exec_assembler}[case["kind"]](
                 ctx, case)
     except Exception as e:
         ctx.violation("op-raised", f"{case['kind']}: {type(e).__name__}: {str(e)[:300]}", case)
@@ -457,9 +496,12 @@ def run(ctx):
                 else:
                     case["window"] = int(rng.choice([1, 3, 5, 9]))
                 ctx.case(case, nontrivial=rc["n"] >= 3, klass=f"branch/{op}")
-            else:
+            elif u == 8:
                 case = {"kind": "smooth", "tree": rc, "window": int(rng.choice([1, 3, 5, 9]))}
                 ctx.case(case, nontrivial=rc["n"] >= 3, klass="smooth")
+            else:
+                case = {"kind": "assembler", "tree": rc}
+                ctx.case(case, nontrivial=rc["n"] >= 3, klass="assembler")
             execute(ctx, case)
         for j, rc in enumerate(G.real_recipes(rng, 1000 if ctx.quick else None)):
             if j % ctx.nshards == ctx.shard:
